@@ -3,6 +3,7 @@ CC = "internal/app/connectconformance"
 CHECK = {
     "level": "model_checking",
     "assumptions": [
+        "c11-osproc: exhaustive over programs, not over OS schedules; 180 s watchdog only",
         "sequential consistency; preemption only at gates (mutex acquisition, atomic access, fake server/client events)",
         "scripted server process and scripted clientRunner stand for the real peers; the clientRunner contract (exactly one callback per accepted send) is C10's subject and is assumed here",
         "state cache key (results, fake peers, parked goroutines, virtual clock) determines future behaviour",
@@ -10,7 +11,7 @@ CHECK = {
     "manifest": {
         "engine": "GATE",
         "technique": "stateless model checking of the real goroutines with exhaustive fault enumeration (controlled scheduler in a synctest bubble, preemption-bounded DFS with state caching)",
-        "text": "Every batch of up to 2 (quick) / 3 (thorough) cases is run through the real runTestCasesForServer against a scripted server process and client for every fault of the alphabet (start error, stdin write/close error, response cut at every byte, oversize, empty, garbage, missing certificate, never, exit after k of n requests, client pipe closing at the k-th send, every tuple of answer kinds, sync/async callbacks, stderr scripts) and every interleaving of the peers' events up to the preemption bound; each execution is judged: returns within a virtual hour, exactly the batch's names have outcomes, fault-hit cases are setup errors, answered cases keep their verdict, server asked to stop, stderr lines attributed or passed through.",
+        "text": "Every batch of up to 2 (quick) / 3 (thorough) cases is run through the real runTestCasesForServer against a scripted server process and client for every fault of the alphabet (start error, stdin write/close error, response cut at every byte, oversize, empty, garbage, missing certificate, never, exit after k of n requests, client pipe closing at the k-th send, every tuple of answer kinds, sync/async callbacks, stderr scripts) and every interleaving of the peers' events up to the preemption bound; each execution is judged: returns within a virtual hour, exactly the batch's names have outcomes, fault-hit cases are setup errors, answered cases keep their verdict, server asked to stop, stderr lines attributed or passed through. Added after the seeding rounds: servers that answer and are gone; stderr written before the answer; slow runner stderr; batches in non-sorted order; the report taken as soon as batch and client are done (what run() waits for); unit c11-clientfaults: the shared client fails while 1-2 batches are in flight; unit c11-osproc: real server / client processes incl. clean exit before the runner writes; unit c11-inproc: scripted server functions through the real runInProcess (start-up request read to EOF or one message, stderr before/after the answer incl. 64 KiB+ lines, names with per-cent signs through the real printer, every way of ending).",
         "note": "Fake peers instead of OS processes; virtual time; sequential consistency at gate granularity.",
         "design_ref": "DESIGN.md §2.1, §2.3, §4 C11",
     },
